@@ -39,70 +39,70 @@ var commonAssumptions = []string{
 }
 
 func init() {
-	register(&PropSpec{ID: "C02", Explanation: "x", Assumptions: commonAssumptions,
-		Rules: []func(*Ctx){ruleCmdIdent, ruleOverflowIdiom, ruleMsetnxPhase, a7Files(20, "redisKeys.go")}})
-	register(&PropSpec{ID: "C03", Explanation: "x", Assumptions: commonAssumptions,
-		Rules: []func(*Ctx){ruleDetached, a7Files(20, "redisList.go")}})
-	register(&PropSpec{ID: "C04", Explanation: "x", Assumptions: commonAssumptions,
-		Rules: []func(*Ctx){ruleSiblingParam, ruleOverflowIdiom, a7Files(20, "redisHashTable.go")}})
-	register(&PropSpec{ID: "C05", Explanation: "x", Assumptions: commonAssumptions,
-		Rules: []func(*Ctx){ruleReadonly(nil), a7Files(15, "redisSet.go")}})
-	register(&PropSpec{ID: "C14", Explanation: "x", Assumptions: commonAssumptions,
-		Rules: []func(*Ctx){ruleC14DbTable, ruleC14Select, ruleA1Modes}})
-	register(&PropSpec{
-		ID: "C06",
-		Explanation: "Structural necessary conditions of keyspace discipline, decided for every site of the current source: (A4-empty) after every site that can shrink a list/hash/set, every path to the end of the critical section tests the aggregate's count against zero and removes the key on the empty side; (A7, files redisCore.go) every option the keyspace handlers look up can be produced by the grammar. The check decides these structural clauses for all paths; it does not decide reply values.",
-		NotDecided:  "glob matching, SORT ordering, DBSIZE/KEYS values, WRONGTYPE replies as values, deep-copy equality of COPY/RENAME (see R-payload-agree when present)",
-		Assumptions: commonAssumptions,
-		Rules:       []func(*Ctx){ruleA4Empty, rulePayloadAgree, ruleCtorAgree, ruleTypedNil, a7Files(20, "redisCore.go")},
-	})
-	register(&PropSpec{
-		ID: "C07",
-		Explanation: "A6 (who-may-read the keyspace raw): every read of a database's keyspace dictionary goes through an expiry filter (tests isExpired, yields (nil,false) on the expired edge), or is an iteration that tests isExpired per element, or is the snapshot writer. This is exactly the universally quantified 'every command treats an expired key as missing' clause.",
-		NotDecided:  "deadline arithmetic, TTL/PTTL/EXPIRETIME values, NX/XX/GT/LT comparisons, behaviour at the deadline instant (time is a runtime quantity)",
-		Assumptions: commonAssumptions,
-		Rules:       []func(*Ctx){ruleA6},
-	})
-	register(&PropSpec{
-		ID: "C08",
-		Explanation: "Under the lock-class assumption, (A1-DB) every access to database state happens with the database mutex held on every path from every root and (lock-balanced) no function returns with the mutex possibly still held; together with (A3, when present) one critical section per command this is the static form of strict two-phase locking with one lock, which implies atomicity of single-database commands.",
-		NotDecided:  "real-time ordering across connections beyond mutual exclusion; cross-database scenarios; wrap-around of the 27-bit command id compared by the re-entrant lock",
-		Assumptions: append([]string{"the owner-token protocol: ds.multiLock equals a command's id only while the EXEC that published it holds ds.mu, and cmdContext.multi is true for a queued command only while that EXEC replays it"}, commonAssumptions...),
-		Rules:       []func(*Ctx){ruleA1("A1-guarded", onlyDB), ruleLockBalanced(nil), ruleA3},
-	})
-	register(&PropSpec{
-		ID: "C09",
-		Explanation: "Structure of the MULTI/EXEC implementation, decided on all paths: state reset on every exit of EXEC/DISCARD; commands are only queued while a queue exists (append guard, non-nil response after append, handler call dominated by response==nil, control table = {multi,exec,discard,watch}); EXEC replays under the exclusive database hold with the lock id rewritten; error branches of the control commands do not touch queue/watches; a command rejected while queueing leaves a mark EXEC reads; nothing replayable takes the database mutex non-re-entrantly.",
-		NotDecided:  "isolation against other connections beyond the lock argument of C08; reply contents",
-		Assumptions: commonAssumptions,
-		Rules:       []func(*Ctx){ruleC09Reset, ruleC09QueueOnly, ruleC09Exclusive, ruleC09AbortFlag, ruleC09ErrorsInert, ruleA2Reentrant, ruleC09Bind},
-	})
-	register(&PropSpec{
-		ID: "C10",
-		Explanation: "A4-version: 'every kind of modification is visible to the comparison at EXEC' is a claim over all write sites: every mutation site of database state has, on every path through it inside its critical section, an event that gives the key a new version id or removes it from the keyspace.",
-		NotDecided:  "the 'iff' across arbitrary interleavings (follows from C08's lock argument plus this rule); expiry-as-modification timing",
-		Assumptions: append([]string{"a helper that looks the key up and bumps its version is given the key of the object being modified (the not-found edge of that lookup is not followed)"}, commonAssumptions...),
-		Rules:       []func(*Ctx){ruleA4Version, ruleA6, ruleC09Reset},
-	})
-	register(&PropSpec{
-		ID: "C13",
-		Explanation: "No path of these crash classes is reachable from the socket: (A7) every single-result type assertion on a value taken from a command's args agrees with what the grammar-driven parser stores for every token that reaches it, and every panic in the default arm of a key switch has a case for every producible key.",
-		NotDecided:  "bounds safety of indexes computed from untainted server-side lengths, termination of loops, memory growth, reply latency",
-		Assumptions: commonAssumptions,
-		Rules:       []func(*Ctx){ruleA7(nil, 120, true), ruleLockBalanced(nil), ruleA2Reentrant, ruleTypedNil, rulePayloadAgree, ruleCmdIdent},
-	})
-	register(&PropSpec{
-		ID: "C16",
-		Explanation: "A1 in full: guarded-by lockset over all lock classes, atomics-only fields, immutable-after-construction fields, connection-confined session state (foreign *clientState taint), run-loop confinement of the connection buffer, append aliasing on the shared grammar slices, and immutability of published payload bytes. A race is a property of pairs of code paths; A1 enumerates every access path to every shared field listed in the guarded-by table.",
-		NotDecided:  "lock-instance confusion; races inside dependencies; fields of realRedisClient (talks to a real server)",
-		Assumptions: append([]string{"the two hand-offs the confinement argument relies on: `go cc.run()` after construction, and the csceCh channel that sequences the reader goroutine and the per-command goroutine of one connection"}, commonAssumptions...),
-		Rules:       []func(*Ctx){ruleA1("A1-guarded", anyClass), ruleA1Modes, ruleAppendAlias, ruleA1PayloadBytes, ruleLockBalanced(nil)},
-	})
-	register(&PropSpec{
-		ID: "C19",
-		Explanation: "A4-dirty: every mutation site of database state is accompanied, on every path through it inside its critical section, by an event that marks the database's keyspace dirty — otherwise the periodic/final save skips the change and a restart loses it.",
-		NotDecided:  "gob round-trip equality; on-disk states at crash points (needs execution or a file-system model)",
-		Assumptions: commonAssumptions,
-		Rules:       []func(*Ctx){ruleA4Dirty, ruleC19AllDbs, ruleC19Records, ruleC19Atomic, ruleC14DbTable, rulePayloadAgree, ruleCtorAgree},
-	})
+	reg := func(id, expl, notDecided string, extraAssume []string, rules ...func(*Ctx)) {
+		register(&PropSpec{ID: id, Explanation: expl, NotDecided: notDecided, Assumptions: append(append([]string{}, extraAssume...), commonAssumptions...), Rules: rules})
+	}
+	reg("C01",
+		"Structure of the connection loop and of the serializer, decided on all paths: (R-C01-rearm) the per-command goroutine writes exactly once and re-arms the read only after a successful write, the socket is read only under the wait state, dispatching and re-arming are exclusive — one command in flight, replies in request order; (R-C01-consume) the buffer is advanced by exactly the length the parser returned for the dispatched value, is otherwise only appended to, and no parser object survives a read — replies depend on the concatenated bytes only; (R-C01-lenprefix) every length prefix is len() of the payload written; (R-C01-line) the line emitter strips CR/LF or no simple/error string embeds request bytes.",
+		"that the parser answers 'need more' for every strict prefix of a frame (argued from its left-to-right determinism, not checked); byte-for-byte round trip of stored values through []rune conversions in glob/LCS",
+		nil, ruleC01Rearm, ruleC01Consume, ruleC01LenPrefix, ruleC01Line)
+	reg("C02",
+		"Structural clauses of the string/counter family: command identity from the normalised token (R-cmdident), the signed-overflow idiom compares with the other addend (R-overflow-idiom), MSETNX checks before it writes (R-C02-msetnx-phase), every argument the handlers read is produced by the grammar with that type (A7, redisKeys.go), the string commands flagged readonly reach no mutation site (A5-readonly).",
+		"reply values, clamping arithmetic of GETRANGE/SETRANGE, LCS output, float formatting, TTL classes (keep/reset/from-argument)",
+		nil, ruleCmdIdent, ruleOverflowIdiom, ruleMsetnxPhase, a7Files(20, "redisKeys.go"), ruleReadonly(nil))
+	reg("C03",
+		"Structural clauses of the list family: no push onto a list that may just have been detached from the keyspace (R-C03-detached: LMOVE with source = destination), emptiness test after every unlink (A4-empty), an element is inserted after every creation of an empty list (A4-nonempty-create), list constructors set the complete link/count field set (R-ctor-agree), typed-accessor results are nil-tested before use (R-typed-nil), argument agreement with the grammar (A7, redisList.go).",
+		"order preservation, index normalisation, LPOS/LREM/LINSERT results — runtime values; no shape analysis of the doubly linked list",
+		nil, ruleDetached, ruleA4Empty, ruleNonEmptyCreate, ruleCtorAgree, ruleTypedNil, a7Files(20, "redisList.go"))
+	reg("C04",
+		"Structural clauses of the hash family: sibling handlers' distinguishing parameter is used by the shared helper (R-sibling-param: HSETNX), overflow idiom (R-overflow-idiom: HINCRBY), emptiness test after field removal (A4-empty), insertion after creation (A4-nonempty-create), nil-tested accessors (R-typed-nil), argument agreement (A7, redisHashTable.go).",
+		"field/value contents, HRANDFIELD distribution, float formatting, dictionary growth/shrink arithmetic",
+		nil, ruleSiblingParam, ruleOverflowIdiom, ruleA4Empty, ruleNonEmptyCreate, ruleTypedNil, a7Files(20, "redisHashTable.go"))
+	reg("C05",
+		"Structural clauses of the set family: commands flagged readonly (SINTER/SUNION/SDIFF/SMEMBERS/…) reach no mutation site of database state — the algebra workers never modify an operand, they work on fresh dictionaries (A5-readonly; write commands reach one); emptiness test after member removal (A4-empty), insertion after creation (A4-nonempty-create), nil-tested accessors, argument agreement (A7, redisSet.go).",
+		"that the computed set equals the mathematical result; that a STORE of an empty result deletes the destination",
+		nil, ruleReadonly(nil), ruleA4Empty, ruleNonEmptyCreate, ruleTypedNil, a7Files(15, "redisSet.go"))
+	reg("C06",
+		"Structural necessary conditions of keyspace discipline, decided for every site of the current source: (A4-empty) after every site that can shrink a list/hash/set every path to the end of the critical section tests the aggregate's count against zero and removes the key on the empty side; (A4-nonempty-create) an element is inserted after every creation of an empty aggregate; (R-payload-agree) every type assertion on a key's payload is dominated by a test of the key-type flag and asserts the Go type producers store for that flag; (R-ctor-agree) list constructors (COPY, load) set the full field set; (R-typed-nil) typed-accessor results are nil-tested before dereference (WRONGTYPE before any use); (A7, redisCore.go) options of the keyspace commands are producible by the grammar.",
+		"glob matching, SORT ordering, DBSIZE/KEYS values, deep-copy equality of COPY/RENAME as values",
+		nil, ruleA4Empty, ruleNonEmptyCreate, rulePayloadAgree, ruleCtorAgree, ruleTypedNil, a7Files(20, "redisCore.go"))
+	reg("C07",
+		"A6 (who-may-read the keyspace raw): every read of a database's keyspace dictionary goes through an expiry filter (tests isExpired, yields (nil,false) on the expired edge), or is an iteration that tests isExpired per element, or is the snapshot writer (identified as the function that drives the gob encoder). This is exactly the universally quantified 'every command treats an expired key as missing' clause.",
+		"deadline arithmetic, TTL/PTTL/EXPIRETIME values, NX/XX/GT/LT comparisons, which commands keep/reset/set the deadline, behaviour at the deadline instant (time is a runtime quantity)",
+		nil, ruleA6)
+	reg("C08",
+		"Under the lock-class assumption: (A1-DB) every access to database state happens with the database mutex held on every path from every root; (lock-balanced) no function returns with the mutex possibly still held; (A3) every keyspace command opens at most one critical section (blocking commands: per attempt). Together this is the static form of strict two-phase locking with one lock, which implies atomicity of single-database commands.",
+		"real-time ordering across connections beyond mutual exclusion; cross-database scenarios; wrap-around of the 27-bit command id compared by the re-entrant lock",
+		[]string{"the owner-token protocol: ds.multiLock equals a command's id only while the EXEC (or exclusive section) that published it holds ds.mu, and cmdContext.multi is true for a queued command only while that EXEC replays it"},
+		ruleA1("A1-guarded", onlyDB), ruleLockBalanced(nil), ruleA3)
+	reg("C09",
+		"Structure of the MULTI/EXEC implementation, decided on all paths: state reset on every exit of EXEC/DISCARD; commands are only queued while a queue exists (append guard, non-nil response after append, handler call dominated by response==nil, control table = {multi,exec,discard,watch}); EXEC replays under the exclusive database hold with the lock id rewritten; a prepared command is never re-bound to another database; error branches of the control commands do not touch queue/watches; a command rejected while queueing leaves a mark EXEC reads; nothing replayable takes the database mutex non-re-entrantly.",
+		"isolation against other connections beyond the lock argument of C08; reply contents; guards inside the dispatcher that depend on connection state other than the queue",
+		nil, ruleC09Reset, ruleC09QueueOnly, ruleC09Exclusive, ruleC09AbortFlag, ruleC09ErrorsInert, ruleA2Reentrant, ruleC09Bind)
+	reg("C10",
+		"A4-version: 'every kind of modification is visible to the comparison at EXEC' is a claim over all write sites: every mutation site of database state (including replacement of the whole keyspace by a flush) has, on every path through it inside its critical section, an event that gives the key a new version id or removes it from the keyspace. A6: the version comparison and the capture at WATCH use the expiry-aware lookup. R-C09-reset: the watch set is cleared on every exit of EXEC/DISCARD.",
+		"the 'iff' across arbitrary interleavings (follows from C08's lock argument plus this rule); expiry-as-modification timing; re-WATCH of an already watched key",
+		[]string{"a helper that looks the key up and bumps its version is given the key of the object being modified (the not-found edge of that lookup is not followed)"},
+		ruleA4Version, ruleA6, ruleC09Reset)
+	reg("C13",
+		"No path of these crash/stall classes is reachable from the socket: (A7) every single-result type assertion on a value taken from a command's args agrees with what the grammar-driven parser stores for every token that reaches it, and every panic in the default arm of a key switch has a case for every producible key; (R-typed-nil) no nil typed-accessor result is dereferenced; (R-payload-agree) no payload assertion can fail for a key type; (lock-balanced, A2-reentrant) no command returns holding, or self-deadlocks on, the database mutex; (R-cmdident) handler behaviour does not depend on the client's spelling of the command.",
+		"sizes/indexes/shifts computed from client integers (A8 not built), framing checks of the request parser, bounds safety of indexes computed from server-side lengths, termination of loops, memory growth, reply latency",
+		nil, ruleA7(nil, 120, true), ruleLockBalanced(nil), ruleA2Reentrant, ruleTypedNil, rulePayloadAgree, ruleCmdIdent)
+	reg("C14",
+		"(R-C14-dbtable) entries of the database table are inserted only when absent and after the index range test, and are never deleted or replaced (a flush empties a database in place), so every connection that selected a database keeps seeing it; (R-C14-select) the connection's selection changes only under the validity result, and a command is bound to the database of the connection it was prepared for; (A1 modes) per-connection session state is not touched through another connection's clientState.",
+		"values returned by DBSIZE, cross-connection visibility timing",
+		nil, ruleC14DbTable, ruleC14Select, ruleA1ModesFor("clientState.selectedDb", "clientState.ds", "clientState.name", "clientState.cmdQueue", "clientState.watches", "clientState.respVersion", "clientState.noEvict", "clientState.libName", "clientState.libVer", "clientState.multiInProgress"))
+	reg("C15",
+		"(R-C15-exhaustive) every RESP type that reply-producing code or the request parser can put into a value is a case of the type switches that consume it (serialize, resp3To2, toNative, String); (R-C15-closure) the down-converter produces only RESP2 kinds and recurses into children; (R-C15-downconvert) the RESP2 branch of the dispatcher applies it to every handler/hook result; (R-C15-hello) the protocol version is only set under a guard restricting it to 2 or 3 whose failing side answers an error; the version field is confined to its connection (A1).",
+		"element order/nesting equality between the two encodings; boolean → 0/1 and other value-level conversions",
+		nil, ruleC15Exhaustive, ruleC15Closure, ruleC15Downconvert, ruleC15Hello, ruleA1ModesFor("clientState.respVersion"))
+	reg("C16",
+		"A1 in full: guarded-by lockset over all lock classes, atomics-only fields, immutable-after-construction fields, connection-confined session state (foreign *clientState taint), run-loop confinement of the connection buffer, append aliasing on the shared grammar slices, immutability of published payload bytes, and lock-balanced. A race is a property of pairs of code paths; A1 enumerates every access path to every shared field listed in the guarded-by table.",
+		"lock-instance confusion; races inside dependencies; fields of realRedisClient (talks to a real server)",
+		[]string{"the two hand-offs the confinement argument relies on: `go cc.run()` after construction, and the csceCh channel that sequences the reader goroutine and the per-command goroutine of one connection"},
+		ruleA1("A1-guarded", anyClass), ruleA1Modes, ruleAppendAlias, ruleA1PayloadBytes, ruleLockBalanced(nil))
+	reg("C19",
+		"(A4-dirty) every mutation site of database state marks the database dirty on every path inside its critical section; (R-C19-all-dbs) the saver ranges over the whole database table; (R-C19-records) writer and loader agree on the record stream: no stored entry is skipped, every header/key-object field is written and read back, both branch on every key type; (R-C19-atomic-replace) the snapshot is written to a temporary file, closed, then renamed; (R-C14-dbtable) a flushed database keeps its table entry, so its emptiness is saved; (R-payload-agree/R-ctor-agree) writer and loader use the canonical payload types and build complete lists.",
+		"gob round-trip equality of values; on-disk states at crash points beyond the create/rename structure (needs execution or a file-system model)",
+		nil, ruleA4Dirty, ruleC19AllDbs, ruleC19Records, ruleC19Atomic, ruleC14DbTable, rulePayloadAgree, ruleCtorAgree)
 }
